@@ -41,7 +41,7 @@ CONSTS_USED = []
 SHAPES = [("00", "z"), ("00", "v"), ("10", "z"), ("10", "v"), ("01", "z"), ("01", "r"), ("11", "z"), ("11", "r")]
 
 
-def case_line(T, S, n, sh, path, seed, jit, slow=0, skipext=0, fault="none", hang_ms=3000):
+def case_line(T, S, n, sh, path, seed, jit, slow=0, skipext=0, fault="none", hang_ms=2000):
     R = (S + T - 1) // T
     return (f"T={T} S={S} R={R} n={n} sh={sh} path={path} seed={seed} jit={jit} slow={slow} "
             f"skipext={skipext} hang_ms={hang_ms} fault={fault}")
@@ -212,3 +212,10 @@ def post(tier, rng, api):
     if problem:
         out["problem"] = problem
     return out
+
+
+MANIFEST = {
+    "text": "Coq theorems over a transition system with any number of threads T >= 2 (phase order; T >= 1 for the rest), any number of rounds and sample sizes, any interleaving and any fault set: an inductive invariant ties every thread's program position and guard counter to the barrier generation (count = number of threads blocked in the current generation; a thread is at most one wait behind), from which follow the phase order (start timestamp only after every thread generated and cleared or has panicked; snapshot/drops only after every thread took its end timestamp or has panicked), non-overlap of untimed work with timed sections, deadlock freedom, a strictly decreasing measure (every execution is finite) and the outcome of every maximal execution as a function of the fault set (caller panics for the least faulting thread of the first faulty round, returns normally iff no fault is in range); each returned sample holds exactly its own thread's operations between its clear and its snapshot; the pre-fix protocol (no guard) deadlocks for T = 2 (F5). The model is tied to the code by replaying the global event log of real multi-threaded runs (jittered schedules, panic injection at every thread/phase under a watchdog) through the extracted step function, by the boolean phase-order specification evaluated on the observed global order, by per-sample allocation info under AllocProfiler, and by an exhaustive exploration of the extracted system for T in {2,3}.",
+    "note": "Trusted: Coq kernel, extraction, OCaml driver, hooks H1-H4 and harness hx-round; std::sync::Barrier's documented semantics and the pool's fork/join contract (C06/C07) are assumptions of the model; ThreadAllocInfo::current() is assumed Some on every benchmark thread; number of rounds and sample sizes are model inputs (C03/C04/C19); real schedules are sampled, the theorems cover all of them.",
+    "technique": "machine-checked proof in Coq (inductive invariant of a labelled transition system, unbounded thread count; lia) + trace replay of real-thread event logs through the extracted step function + exhaustive exploration of small instances + panic injection under a watchdog",
+}
